@@ -175,22 +175,34 @@ def run_perc(case):
     N = G.order()
     a, b = case["a"], case["b"]
     phi = a / b
-    tr = {"kind": "perc", "case": case, "V": sorted(G.nodes()), "E": es, "a": a, "b": b, "leaves": [], "exhaustive": False,
+    tr = {"kind": "perc", "case": case, "V": sorted(G.nodes()), "E": es, "a": a, "b": b, "leaves": [], "dist": [], "dist_offgrid": False, "exhaustive": False,
           "draws_known": True, "input_same": True, "raised": ""}
     from ..exact import decode
     orc = Oracle()
     try:
         if case["mode"][0] == "tree":
             trails = []
-            for val, trail, _w in orc.enumerate(lambda: gcmpy.bond_percolate(G, phi), grid=b, max_leaves=case.get("max_leaves", 70000)):
+            dist, last_trail = {}, None
+            for val, trail, w_ in orc.enumerate(lambda: gcmpy.bond_percolate(G, phi), grid=b, max_leaves=case.get("max_leaves", 70000)):
                 trails.append((val, [t[2] for t in trail]))
+                last_trail = trail
                 n, ok = decode(val, N)
+                dist[n] = dist.get(n, 0) + w_
                 draws = [t[2] for t in trail if t[0] == "r"]
                 if len(draws) != len(es):
                     tr["draws_known"] = False
                     draws = (draws + [0] * len(es))[:len(es)]
                 tr["leaves"].append({"draws": draws, "n": n, "ok": bool(ok)})
-            tr["exhaustive"] = len(tr["leaves"]) == b ** len(es)
+            # the law of the result over the WHOLE decision tree, with exact leaf weights: however many draws a leaf took
+            # (an implementation may skip draws that cannot matter), P(result = r/N) must be the percolation probability
+            tr["exhaustive"] = last_trail is not None and Oracle.next_prefix(last_trail) is None
+            D = b ** len(es)
+            for r_, p_ in sorted(dist.items()):
+                x = p_ * D
+                if x.denominator != 1:
+                    tr["dist_offgrid"] = True
+                else:
+                    tr["dist"].append([int(r_), int(x)])
             # the grid enumeration is exact only if the code uses each uniform draw solely through comparisons with multiples
             # of 1/b: replay leaves with the draws moved to both ends of their cells; any difference -> the law is not decided
             if 0 < a < b and trails:
@@ -206,15 +218,16 @@ def run_perc(case):
                             tr["undecided"] = "the result depends on the uniform draws beyond comparisons with multiples of 1/%d (e.g. log / inverse transforms): the aligned grid does not represent the law" % b
                             break
                     if tr.get("undecided"):
-                        tr["leaves"], tr["exhaustive"] = [], False
+                        tr["leaves"], tr["exhaustive"], tr["dist"] = [], False, []
                         break
             if es and 0 < a < b and len(tr["leaves"]) == 1 and not tr["draws_known"]:
                 # no draw reached the random module: not enumerable unless the helper is deterministic
+                from ..oracle import other_rng_used
                 vals = {gcmpy.bond_percolate(G, phi) for _ in range(12)}
-                if len(vals) > 1:
+                if len(vals) > 1 or other_rng_used(lambda: gcmpy.bond_percolate(G, phi)):
                     tr["exhaustive"] = False
                     tr["undecided"] = "results vary although no draw reached the random module (other RNG)"
-                    tr["leaves"] = []
+                    tr["leaves"], tr["dist"] = [], []
         else:
             rng = _r.Random(case["mode"][1])
             tr["draws_known"] = False
